@@ -605,6 +605,7 @@ func (s *DiscoveryServer) StartPush(req *model.PushRequest) {
 	for _, p := range s.AllClients() {
 		s.pushQueue.Enqueue(p, req)
 	}
+	verifGate("push:after-enqueue")
 }
 
 func (s *DiscoveryServer) addCon(conID string, con *Connection) {
